@@ -310,9 +310,9 @@ Definition get_disjoint_mut (ks : list Q) : M (list (option nat)) :=
 (* ---- src/clone.rs:11-21 Clone, as repaired: the length advances with each
    slot written.  State = the clone being built; [src] is shared-borrowed. ---- *)
 Definition clone_pair (p : K * V) : M (K * V) :=
-  emit [EvCloneK (hd 0%N (idK E (fst p)))] ;;
+  emit (List.map EvCloneK (idK E (fst p))) ;;
   k' <- cbo (fun s => cloneK E s (fst p)) ;;
-  emit [EvCloneV (hd 0%N (idV E (snd p)))] ;;
+  emit (List.map EvCloneV (idV E (snd p))) ;;
   v' <- cbo (fun s => cloneV E s (snd p)) ;;
   ret (k', v').
 
